@@ -1,11 +1,84 @@
 //! C10/C17/C03: CRC-32C kernel, record token, header_range – against an independent bitwise reference.
 use super::*;
+#[path = "lock_stubs.rs"]
+mod lock_stubs;
+use lock_stubs::*;
 use crate::storage::format::{FormatV1, FormatV2};
 
-/// stub target for `select_crc32c` (cpuid / SSE4.2 / ARM intrinsics are not encodable): the crate's own
-/// portable implementation.
-pub(crate) fn sw() -> Crc32c {
-    crc32c_sw
+// ---- CRC selection under cfg(kani) -------------------------------------------------------------------
+// `select_crc32c` (cpuid / SSE4.2 / ARM intrinsics: not encodable) gets one cfg(kani) line in the scratch
+// copy that asks `crc_override()` first (lib/kanirun.py REWRITES). Because this is source-level and not a
+// kani::stub, it is also in force when a counterexample is replayed natively with `cargo kani playback`.
+//   mode 0: the crate's own portable kernel `crc32c_sw` (default)
+//   mode 1: recorder – logs exactly which bytes are fed, in which order, and checks the seed chaining
+//   mode 2: havoc – an arbitrary u32 per call (sound over-approximation for panic-freedom checks)
+pub(crate) static mut CRC_MODE: u8 = 0;
+pub(crate) fn crc_override() -> Option<Crc32c> {
+    Some(match unsafe { CRC_MODE } {
+        1 => rec_crc,
+        2 => havoc_crc,
+        _ => crc32c_sw,
+    })
+}
+pub(crate) fn use_recorder() {
+    unsafe {
+        CRC_MODE = 1;
+    }
+}
+pub(crate) fn use_havoc() {
+    unsafe {
+        CRC_MODE = 2;
+    }
+}
+fn havoc_crc(_seed: u32, _data: &[u8]) -> u32 {
+    kani::any()
+}
+
+pub(crate) const REC_CAP: usize = 64;
+pub(crate) const REC_MSGS: usize = 4;
+pub(crate) struct Recorder {
+    pub n: usize,
+    pub total: [usize; REC_MSGS],
+    pub bytes: [[u8; REC_CAP]; REC_MSGS],
+    pub chain_ok: bool,
+}
+pub(crate) static mut REC: Recorder =
+    Recorder { n: 0, total: [0; REC_MSGS], bytes: [[0; REC_CAP]; REC_MSGS], chain_ok: true };
+/// the recorder's "crc" after `total` message bytes: never 0, a function of the length only
+pub(crate) fn rec_value(total: usize) -> u32 {
+    0x5A00_0000u32.wrapping_add(total as u32).wrapping_add(1)
+}
+fn rec_crc(seed: u32, data: &[u8]) -> u32 {
+    unsafe {
+        if seed == 0 {
+            assert!(REC.n < REC_MSGS, "verif recorder: too many CRC messages");
+            REC.n += 1;
+        } else if REC.n == 0 || seed != rec_value(REC.total[REC.n - 1]) {
+            REC.chain_ok = false; // a segment was not chained onto the running value
+            if REC.n == 0 {
+                REC.n = 1;
+            }
+        }
+        let m = REC.n - 1;
+        let mut i = 0;
+        while i < data.len() && REC.total[m] + i < REC_CAP {
+            REC.bytes[m][REC.total[m] + i] = data[i];
+            i += 1;
+        }
+        REC.total[m] += data.len();
+        rec_value(REC.total[m])
+    }
+}
+/// message `m` recorded so far equals `want[..len]` (compared at one symbolic position)
+pub(crate) fn rec_matches(m: usize, want: &[u8], len: usize) -> bool {
+    unsafe {
+        if !(REC.chain_ok && m < REC.n && REC.total[m] == len) {
+            return false;
+        }
+        let i: usize = kani::any();
+        kani::assume(i < len && i < REC_CAP);
+        REC.bytes[m][i] == want[i]
+    }
 }
 
 /// Independent reference: bit-at-a-time reflected CRC-32C (Castagnoli, 0x1EDC6F41 reflected = 0x82F63B78).
@@ -33,36 +106,52 @@ pub(crate) fn ref_fold(crc: u32) -> u16 {
     if t == 0 { 1 } else { t }
 }
 
-/// documented token: fold(CRC32C(sector_le || extent with bytes 2..4 zeroed))
-pub(crate) fn ref_record_token(sector: u64, data: &[u8]) -> u16 {
-    let mut crc = ref_crc32c(0, &sector.to_le_bytes());
+/// documented token message: sector_le || extent with bytes 2..4 zeroed
+pub(crate) fn ref_token_msg(sector: u64, data: &[u8], out: &mut [u8; 8 + 48]) -> usize {
+    let s = sector.to_le_bytes();
     let mut i = 0;
-    while i < data.len() {
-        let byte = if i == 2 || i == 3 { 0 } else { data[i] };
-        crc = ref_crc32c(crc, &[byte]);
+    while i < 8 {
+        out[i] = s[i];
         i += 1;
     }
-    ref_fold(crc)
+    let mut i = 0;
+    while i < data.len() {
+        out[8 + i] = if i == 2 || i == 3 { 0 } else { data[i] };
+        i += 1;
+    }
+    8 + data.len()
+}
+
+/// one byte from ANY running state: table-driven step == 8 bitwise steps (with streaming, this is
+/// table == bitwise for every length by induction on the message)
+#[kani::proof]
+#[kani::unwind(10)]
+fn c10_crc32c_byte_step() {
+    let b: u8 = kani::any();
+    let seed: u32 = kani::any();
+    assert!(crc32c_sw(seed, &[b]) == ref_crc32c(seed, &[b]));
+    assert!(crc32c_sw(seed, &[]) == seed);
+    kani::cover!(true, "byte step");
 }
 
 #[kani::proof]
 #[kani::unwind(10)]
-fn c10_crc32c_sw_matches_bitwise() {
-    let data: [u8; 8] = kani::any();
+fn c10_crc32c_sw_matches_bitwise_3() {
+    let data: [u8; 3] = kani::any();
     let len: usize = kani::any();
-    kani::assume(len <= 8);
+    kani::assume(len <= 3);
     let seed: u32 = kani::any();
     assert!(crc32c_sw(seed, &data[..len]) == ref_crc32c(seed, &data[..len]));
-    kani::cover!(len == 8, "8-byte input");
+    kani::cover!(len == 3, "3-byte input");
 }
 
 #[kani::proof]
 #[kani::unwind(10)]
 fn c10_crc32c_streaming() {
-    let data: [u8; 8] = kani::any();
+    let data: [u8; 6] = kani::any();
     let cut: usize = kani::any();
     let len: usize = kani::any();
-    kani::assume(len <= 8 && cut <= len);
+    kani::assume(len <= 6 && cut <= len);
     let seed: u32 = kani::any();
     let whole = crc32c_sw(seed, &data[..len]);
     let parts = crc32c_sw(crc32c_sw(seed, &data[..cut]), &data[cut..len]);
@@ -72,7 +161,6 @@ fn c10_crc32c_streaming() {
 
 #[kani::proof]
 #[kani::unwind(12)]
-#[kani::stub(select_crc32c, sw)]
 fn c10_crc32c_known_answer() {
     // pins polynomial, reflection, init and final xor through the public entry point
     assert!(crc32c(0, b"123456789") == 0xE306_9283);
@@ -80,42 +168,63 @@ fn c10_crc32c_known_answer() {
     kani::cover!(true, "kat");
 }
 
+/// record_seq_token feeds the CRC exactly sector_le || data[0..2] || 00 00 || data[4..], chained, and
+/// folds the result to a non-zero u16. (CRC recorder; the kernel is pinned by the harnesses above.)
 #[kani::proof]
-#[kani::unwind(26)]
-#[kani::stub(select_crc32c, sw)]
-fn c10_record_token_matches_reference() {
-    let mut data: [u8; 24] = kani::any();
+#[kani::unwind(66)]
+fn c10_record_token_coverage() {
+    use_recorder();
+    let data: [u8; 48] = kani::any();
     let len: usize = kani::any();
-    kani::assume(len >= 4 && len <= 24);
+    kani::assume(len >= 4 && len <= 48);
     let sector: u64 = kani::any();
     let t = record_seq_token(sector, &data[..len]);
+    let mut want = [0u8; 56];
+    let n = ref_token_msg(sector, &data[..len], &mut want);
+    assert!(rec_matches(0, &want, n));
+    assert!(unsafe { REC.n } == 1);
+    assert!(t != 0 && t == ref_fold(rec_value(n)));
+    kani::cover!(len == 48, "48-byte extent image");
+}
+
+/// with the REAL kernel: the token never is 0 and ignores bytes 2..4 (stamping is idempotent)
+#[kani::proof]
+#[kani::unwind(14)]
+fn c10_record_token_ignores_seq_field() {
+    let mut data: [u8; 8] = kani::any();
+    let sector: u64 = kani::any();
+    let t = record_seq_token(sector, &data);
     assert!(t != 0);
-    assert!(t == ref_record_token(sector, &data[..len]));
-    // the token ignores bytes 2..4, so stamping it into them is idempotent
     data[2] = kani::any();
     data[3] = kani::any();
-    assert!(record_seq_token(sector, &data[..len]) == t);
-    kani::cover!(len == 24, "24-byte extent image");
+    assert!(record_seq_token(sector, &data) == t);
+    kani::cover!(true, "idempotent");
 }
 
 #[kani::proof]
-#[kani::unwind(26)]
-#[kani::stub(select_crc32c, sw)]
-fn c10_seq_token_matches_reference() {
+#[kani::unwind(66)]
+fn c10_seq_token_coverage() {
     // marker token: fold(CRC32C(sector_le || bytes))
+    use_recorder();
     let data: [u8; 17] = kani::any();
     let sector: u64 = kani::any();
     let t = seq_token(sector, &data);
-    let mut crc = ref_crc32c(0, &sector.to_le_bytes());
-    crc = ref_crc32c(crc, &data);
-    assert!(t == ref_fold(crc) && t != 0);
+    let mut want = [0u8; 25];
+    want[..8].copy_from_slice(&sector.to_le_bytes());
+    want[8..].copy_from_slice(&data);
+    assert!(rec_matches(0, &want, 25));
+    assert!(t == ref_fold(rec_value(25)) && t != 0);
     kani::cover!(true, "marker token");
 }
 
 #[kani::proof]
-#[kani::unwind(26)]
-#[kani::stub(select_crc32c, sw)]
+#[kani::unwind(66)]
+#[kani::stub(parking_lot::raw_rwlock::RawRwLock::lock_exclusive_slow, s_lock_ex)]
+#[kani::stub(parking_lot::raw_rwlock::RawRwLock::unlock_exclusive_slow, s_unlock_ex)]
+#[kani::stub(parking_lot::raw_rwlock::RawRwLock::lock_shared_slow, s_lock_sh)]
+#[kani::stub(parking_lot::raw_rwlock::RawRwLock::unlock_shared_slow, s_unlock_sh)]
 fn c10_stamp_seq_token() {
+    use_recorder();
     let mut data: [u8; 40] = kani::any();
     let before = data;
     let sector: u64 = kani::any();
@@ -128,7 +237,10 @@ fn c10_stamp_seq_token() {
     assert!(data[i] == before[i]);
     if has_header {
         let t = u16::from_le_bytes([data[2], data[3]]);
-        assert!(t != 0 && t == ref_record_token(sector, &before));
+        let mut want = [0u8; 56];
+        let n = ref_token_msg(sector, &before, &mut want);
+        assert!(rec_matches(0, &want, n));
+        assert!(t != 0 && t == ref_fold(rec_value(n)));
         kani::cover!(true, "stamped");
     } else {
         assert!(data[2] == before[2] && data[3] == before[3]);
@@ -140,6 +252,10 @@ fn c10_stamp_seq_token() {
 /// end = header size <= min(4096, len).
 #[kani::proof]
 #[kani::unwind(4)]
+#[kani::stub(parking_lot::raw_rwlock::RawRwLock::lock_exclusive_slow, s_lock_ex)]
+#[kani::stub(parking_lot::raw_rwlock::RawRwLock::unlock_exclusive_slow, s_unlock_ex)]
+#[kani::stub(parking_lot::raw_rwlock::RawRwLock::lock_shared_slow, s_lock_sh)]
+#[kani::stub(parking_lot::raw_rwlock::RawRwLock::unlock_shared_slow, s_unlock_sh)]
 fn c17_header_range_total() {
     let data: [u8; 64] = kani::any();
     let len: usize = kani::any();
@@ -167,6 +283,10 @@ fn c17_header_range_total() {
 /// header_range with a full 4 KiB block: the key-length cap (record header must fit one block).
 #[kani::proof]
 #[kani::unwind(4)]
+#[kani::stub(parking_lot::raw_rwlock::RawRwLock::lock_exclusive_slow, s_lock_ex)]
+#[kani::stub(parking_lot::raw_rwlock::RawRwLock::unlock_exclusive_slow, s_unlock_ex)]
+#[kani::stub(parking_lot::raw_rwlock::RawRwLock::lock_shared_slow, s_lock_sh)]
+#[kani::stub(parking_lot::raw_rwlock::RawRwLock::unlock_shared_slow, s_unlock_sh)]
 fn c17_header_range_block() {
     let mut data = [0u8; FEOX_BLOCK_SIZE];
     data[4] = kani::any();
